@@ -49,7 +49,7 @@ AnsAlts(e) ==
   IF h \in {"404", "swallow"} THEN {}
   ELSE IF h = "events" THEN {[DefAns EXCEPT !.kind = k, !.status = s] : k \in {"ok"}, s \in {204, 404, 503}}
                             \cup {[DefAns EXCEPT !.kind = "badaddr"], [DefAns EXCEPT !.kind = "auth"], [DefAns EXCEPT !.kind = "hop"]}
-  ELSE {[DefAns EXCEPT !.kind = k] : k \in {"err", "panic"}}
+  ELSE {[DefAns EXCEPT !.kind = k] : k \in {"err", "panic", "cancel", "timeout"}}
        \cup (IF rk = "duties" THEN {[DefAns EXCEPT !.meta = m] : m \in {"nil", "noeo", "nodroot", "badeo", "baddroot"}} ELSE {})
        \cup (IF rk \in {"duties", "sduties", "vals", "val", "data"} /\ h # "AttestationData" /\ h # "SyncCommitteeContribution"
                THEN {[DefAns EXCEPT !.n = n] : n \in {0, 2}} ELSE {})
@@ -77,15 +77,16 @@ Others ==
      params |-> <<>>, body |-> [enc |-> "json", form |-> IF m \in {"POST", "PUT"} THEN "ok" ELSE "empty"], bfork |-> "none",
      bcv |-> "", ans |-> a, builder |-> FALSE, sent |-> <<"o1">>]
     : m \in Methods, t \in {"none", "json", "ssz", "text"},
-      a \in {[DefAns EXCEPT !.kind = k, !.status = s] : k \in {"ok"}, s \in {200, 204, 404, 503}} \cup {[DefAns EXCEPT !.kind = "err"]} }
+      a \in {[DefAns EXCEPT !.kind = k, !.status = s] : k \in {"ok"}, s \in {200, 204, 404, 503}} \cup {[DefAns EXCEPT !.kind = k] : k \in {"err", "cancel", "timeout"}} }
 Cases == UNION {Bases(e) : e \in Endpoints} \cup UNION {Alts(b) : b \in UNION {AltBases(e) : e \in Endpoints}} \cup Others
 
 \* the scripted environment of the design check
 RetOf(cc) == [kind |-> cc.ans.kind, objs |-> [i \in 1..cc.ans.n |-> "r"], ver |-> cc.ans.ver, blinded |-> cc.ans.blinded, nofield |-> cc.ans.nofield,
               ev |-> "7", cv |-> "9", meta |-> cc.ans.meta, eo |-> "true", droot |-> "0xdd"]
-PRetOf(cc) == [kind |-> IF cc.ans.kind = "err" THEN "err" ELSE "ok", status |-> cc.ans.status, hdr |-> "up", body |-> "b"]
+PRetOf(cc) == [kind |-> IF cc.ans.kind \in {"err", "cancel", "timeout"} THEN cc.ans.kind ELSE "ok", status |-> cc.ans.status, hdr |-> "up", body |-> "b"]
 MCInit == c \in Cases /\ InitRun
-MCNext == \/ Dispatch \/ Parse \/ RefuseWrongFork \/ Respond \/ EventsBadAddr
+MCNext == \/ Dispatch \/ Parse \/ RefuseWrongFork \/ Respond \/ EventsBadAddr \/ PRespond
+          \/ CtxEnd(ImplCtxEnd(Blocked))
           \/ \E objs \in {c.sent, <<"x">>} : Call(objs, RetOf(c))
           \/ ProxyCall(NoMeta, PRetOf(c)) \/ EventsCall(NoMeta, PRetOf(c))
 MCSpec == MCInit /\ [][MCNext]_vars
